@@ -1275,6 +1275,7 @@ def run(ctx):
         t0 = time.time()
         fn(ctx)
         ctx.counts["wall_s_" + fn.__name__] = round(time.time() - t0, 1)
+    from props import c08_r4; c08_r4.extra(ctx)      # round 4: renderings that start with text; declarations at byte offsets
     ctx.extra_cov["exhaustive"] = True
     ctx.extra_cov["exhaustive_scope"] = ("substitute_encoding over all strings of <=4 tokens (quick: 20k of them); "
                                          "every Unicode scalar value x every codec of the set through str.encode "
